@@ -26,6 +26,7 @@ static struct {
 	uint64_t last_handler_end;
 	int fd_closed;
 	int sib_events, caw_late_starts, caw_returned_while_running, raised;
+	int ch_form;   // how the cancellation handler is set: block / function, plain / mandatory
 	int done, nthreads, caw_second;   // caw_second: a second thread races the cancel_and_wait with 1 a plain cancel, 2 another cancel_and_wait
 	int activated;
 	sim_event handler_seen;
@@ -171,6 +172,17 @@ static bool cancel_done(void *c) {
 	if (C.cmode != CM_AND_WAIT && !C.ch_count) return false;
 	return !C.handler_running;
 }
+extern void dispatch_source_set_mandatory_cancel_handler(dispatch_source_t source, dispatch_block_t handler);
+extern void dispatch_source_set_mandatory_cancel_handler_f(dispatch_source_t source, dispatch_function_t handler);
+static void set_cancel_handler_form(void) {
+	switch (C.ch_form) {
+	case 0: dispatch_source_set_cancel_handler(C.ds, ^{ cancel_handler(NULL); }); break;
+	case 1: dispatch_source_set_cancel_handler_f(C.ds, cancel_handler); break;
+	case 2: dispatch_source_set_mandatory_cancel_handler(C.ds, ^{ cancel_handler(NULL); }); break;
+	default: dispatch_source_set_mandatory_cancel_handler_f(C.ds, cancel_handler); break;
+	}
+}
+static void *setter_thread(void *arg) { (void)arg; for (int k = (int)(RC.seed >> 37 & 15); k > 0; k--) sim_point(); set_cancel_handler_form(); return NULL; }
 static void c16_run(void) {
 	memset(&C, 0, sizeof C);
 	C.stype = (int)g_n(ST_N); C.cmode = (int)g_n(CM_N + 1); if (C.cmode >= CM_N) C.cmode = CM_AND_WAIT;   // (cancel_and_wait has the most variants: twice the share)
@@ -203,7 +215,11 @@ static void c16_run(void) {
 	if (!C.ds) h_viol("create", "dispatch_source_create failed");
 	sim_watch(C.ds, 120); sim_watch(*(void **)((char *)C.ds + 88), 96);
 	if (g_chance(1, 2)) dispatch_source_set_event_handler(C.ds, ^{ event_handler(NULL); }); else dispatch_source_set_event_handler_f(C.ds, event_handler);
-	if (C.cmode != CM_AND_WAIT) { if (g_chance(1, 2)) dispatch_source_set_cancel_handler(C.ds, ^{ cancel_handler(NULL); }); else dispatch_source_set_cancel_handler_f(C.ds, cancel_handler); }
+	// the cancellation handler: plain or "mandatory" form (private header: the same handler, plus a check at dispose time);
+	// before a cancel-before-activation it is sometimes set by another thread while the cancel is under way
+	int late_setter = C.cmode == CM_BEFORE_ACTIVATE && g_chance(1, 2);
+	C.ch_form = (int)g_n(4);
+	if (C.cmode != CM_AND_WAIT && !late_setter) set_cancel_handler_form();
 	if (C.sibling) {
 		if (C.stype == ST_SIGNAL) C.sib = dispatch_source_create(DISPATCH_SOURCE_TYPE_SIGNAL, C16_SIGNO, 0, dispatch_get_global_queue(0, 0));
 		else C.sib = dispatch_source_create(C.stype == ST_READ ? DISPATCH_SOURCE_TYPE_WRITE : DISPATCH_SOURCE_TYPE_READ, (uintptr_t)C.mon_fd, 0, dispatch_get_global_queue(0, 0));
@@ -216,7 +232,12 @@ static void c16_run(void) {
 		if (C.stype == ST_DATA) dispatch_source_merge_data(C.ds, 3);
 		else if (C.stype == ST_READ) { ssize_t r = write(C.fds[1], "pending", 7); (void)r; }
 	}
-	if (C.cmode == CM_BEFORE_ACTIVATE) do_cancel("main (before activation)");
+	if (C.cmode == CM_BEFORE_ACTIVATE) {
+		sim_thread *st = late_setter ? sim_spawn(setter_thread, NULL, "handler-setter") : NULL;
+		for (int k = (int)(RC.seed >> 33 & 15); k > 0; k--) sim_point();
+		do_cancel("main (before activation)");
+		if (st && sim_join(st, LIVENESS_NS)) h_stuck("liveness", "dispatch_source_set_cancel_handler did not return");
+	}
 	dispatch_activate(C.ds); C.activated = 1;
 	if (C.tqkind == 2 && C.cmode != CM_AND_WAIT) { /* no marker on a global queue: accept */ }
 	sim_thread *th[4]; int n = 0;
